@@ -166,7 +166,9 @@ impl<S: BuildHasher + Clone + 'static> ExpirationMap<S> {
         let (old_bucket_num, new_bucket_num) =
             (storage_bucket(old_exp_time), storage_bucket(new_exp_time));
 
-        if old_bucket_num == new_bucket_num {
+        // Only an entry that had a TTL is filed somewhere: for one that had none, equal bucket
+        // numbers do not mean that the key is already in place.
+        if !old_exp_time.is_zero() && old_bucket_num == new_bucket_num {
             return Ok(());
         }
 
